@@ -5,7 +5,7 @@
 (* Configuration of a logger type (fixed per behaviour, like a template instantiation):             *)
 (*   min  : compile-time minimum severity 0..5 (trace..fatal)                                       *)
 (*   fx   : runtime filter expression over three threshold filters                                  *)
-(*          <<"thr", i>> | <<"and", f, g>> | <<"or", f, g>> | <<"not", f>>                          *)
+(*          <<"thr", i>> | <<"untagged">> | <<"and", f, g>> | <<"or", f, g>> | <<"not", f>>         *)
 (*   ns   : number of members of the sequence sink (1 = plain sink)                                 *)
 (* State: the thresholds, and the statements that are currently alive.  A statement is either one   *)
 (* expression (`L::info(tag) << a << b;`, action Expr: begins, streams and ends in one step of the  *)
@@ -31,15 +31,18 @@ vars == <<cfg, thr, slot, last>>
 
 Free == [st |-> "free", sev |-> 0, tag |-> 0, owns |-> FALSE, buf |-> <<>>]
 
-RECURSIVE Eval(_, _, _)
-Eval(f, t, sev) ==
+(* a filter sees the record of the statement: its severity and its tag ("untagged" is a user-written filter that *)
+(* accepts records without a tag -- the library hands every filter the same record)                            *)
+RECURSIVE Eval(_, _, _, _)
+Eval(f, t, sev, tag) ==
   CASE f[1] = "thr" -> sev >= t[f[2]]
-    [] f[1] = "and" -> Eval(f[2], t, sev) /\ Eval(f[3], t, sev)
-    [] f[1] = "or"  -> Eval(f[2], t, sev) \/ Eval(f[3], t, sev)
-    [] f[1] = "not" -> ~Eval(f[2], t, sev)
+    [] f[1] = "untagged" -> tag = 0
+    [] f[1] = "and" -> Eval(f[2], t, sev, tag) /\ Eval(f[3], t, sev, tag)
+    [] f[1] = "or"  -> Eval(f[2], t, sev, tag) \/ Eval(f[3], t, sev, tag)
+    [] f[1] = "not" -> ~Eval(f[2], t, sev, tag)
 
 CompiledIn(sev) == sev >= cfg.min                         \* the statement has a real stream type
-Enabled(sev) == CompiledIn(sev) /\ Eval(cfg.fx, thr, sev)  \* ... and the runtime filter accepts it now
+Enabled(sev, tag) == CompiledIn(sev) /\ Eval(cfg.fx, thr, sev, tag)  \* ... and the runtime filter accepts it now
 
 NoEffect == [kind |-> "", fmt |-> <<>>, sinks |-> <<>>, called |-> 0]
 RECURSIVE Message(_)
@@ -69,7 +72,7 @@ SetThreshold(i, v) ==
 Expr(sev, tag, items) ==
   /\ UseExpr /\ sev \in Sevs /\ tag \in {0, 1} /\ IsItemList(items)
   /\ last' = [op |-> "Expr", args |-> <<sev, tag, items>>,
-              eff |-> IF Enabled(sev)
+              eff |-> IF Enabled(sev, tag)
                       THEN [Deliver(Rec(sev, tag, items)) EXCEPT !.kind = "smart", !.called = NumCalls(items)]
                       ELSE [NoEffect EXCEPT !.kind = IF CompiledIn(sev) THEN "smart" ELSE "null"]]
   /\ UNCHANGED <<cfg, thr, slot>>
@@ -77,7 +80,7 @@ Expr(sev, tag, items) ==
 (* a named stream object: the gates are evaluated once, when it is created *)
 Begin(s, sev, tag) ==
   /\ UseNamed /\ s \in 1..NSlots /\ slot[s].st = "free" /\ sev \in Sevs /\ tag \in {0, 1}
-  /\ slot' = [slot EXCEPT ![s] = [st |-> "live", sev |-> sev, tag |-> tag, owns |-> Enabled(sev), buf |-> <<>>]]
+  /\ slot' = [slot EXCEPT ![s] = [st |-> "live", sev |-> sev, tag |-> tag, owns |-> Enabled(sev, tag), buf |-> <<>>]]
   /\ last' = [op |-> "Begin", args |-> <<s, sev, tag>>,
               eff |-> [NoEffect EXCEPT !.kind = IF CompiledIn(sev) THEN "smart" ELSE "null"]]
   /\ UNCHANGED <<cfg, thr>>
